@@ -20,8 +20,17 @@ type PeriodicTimer struct {
 	mutex          sync.RWMutex
 }
 
+// minPeriodicTimerInterval replaces a non-positive interval: a timer created
+// with one (the refresh timer of an allocation the server granted LIFETIME 0,
+// i.e. half of nothing) would fire again and again without any pause.
+const minPeriodicTimerInterval = time.Second
+
 // NewPeriodicTimer create a new timer.
 func NewPeriodicTimer(id int, timeoutHandler PeriodicTimerTimeoutHandler, interval time.Duration) *PeriodicTimer {
+	if interval <= 0 {
+		interval = minPeriodicTimerInterval
+	}
+
 	return &PeriodicTimer{
 		id:             id,
 		interval:       interval,
